@@ -65,6 +65,18 @@ func newUniverse(d *dag.DAG) *universe {
 }
 
 func (u *universe) block(i int) (cid.Cid, []byte) {
+	if i >= 3000 && i < 4000 && i-3000 < len(u.d.Blocks) {
+		// a block whose BYTES are the multihash digest of DAG block i-3000, sent under an identity multihash: its own
+		// digest then equals that link's digest although the hash functions differ
+		dec, err := mh.Decode(u.d.Blocks[i-3000].Cid.Hash())
+		if err == nil {
+			data := append([]byte(nil), dec.Digest...)
+			h, _ := mh.Sum(data, mh.IDENTITY, -1)
+			c := cid.NewCidV1(cid.Raw, h)
+			u.byCid[c.String()] = i
+			return c, data
+		}
+	}
 	if i < 1000 {
 		if i < len(u.d.Blocks) {
 			return u.d.Blocks[i].Cid, u.d.Blocks[i].Data
@@ -369,8 +381,14 @@ func mutateStream(r *rng.R, s []sitem, n int) ([]sitem, []string) {
 			s[i].blk = r.Intn(n)
 			tags = append(tags, "mut:wrongblock")
 		case 5: // forged bytes: keyed by their own hash
-			s[i].blk = 1000 + r.Intn(3)
-			tags = append(tags, "mut:forged")
+			if r.P(1, 2) && s[i].act == 0 && s[i].cid < 1000 {
+				// the genuine block is withheld; instead a block under an identity multihash whose payload is the link's digest
+				s[i].blk = 3000 + s[i].cid
+				tags = append(tags, "mut:identity-digest-block")
+			} else {
+				s[i].blk = 1000 + r.Intn(3)
+				tags = append(tags, "mut:forged")
+			}
 		case 6: // wrong link
 			s[i].cid = r.Intn(n)
 			tags = append(tags, "mut:wronglink")
